@@ -43,6 +43,8 @@ func sigdbInit() {
 	add("h1", prbytes("h1", 32), "h1")
 	add("h2", prbytes("h2", 32), "h2")
 	add("h31", prbytes("h31", 31), "h31")
+	add("h33", prbytes("h33", 33), "h33")
+	add("h48", prbytes("h48", 48), "h48") // as long as a SHA-384 digest
 	add("c1", derLike("c1", 700), "c1")
 	add("c2", derLike("c2", 700), "c2")
 	add("c3", derLike("c3", 900), "c3")
